@@ -19,8 +19,9 @@ type Term struct {
 	Op     string // const param freevar global alloc fieldaddr indexaddr load call extract binop unop conv phi field index lookup slice make closure fn other
 	Aux    string // operator, field name, callee name, type, extract index ...
 	Args   []*Term
-	Fn     string // enclosing function for call terms
-	Folded bool   // constant produced by folding integer operators
+	Fn     string           // enclosing function for call terms
+	Fields map[string]*Term // a struct value read from a local: the values its fields had at that moment
+	Folded bool             // constant produced by folding integer operators
 	Int    int64
 	V      ssa.Value       // originating value (nil for synthesised)
 	In     ssa.Instruction // originating instruction for call/load terms
